@@ -21,7 +21,7 @@ TECHNIQUE = 'offline history checker over recorded operation sequences against f
 RULE = ('files: multi-chunk multi-segment model files (contiguous, interleaved, strings, timestamps) and DAQmx files; histories of 20-60 '
         'ops; non-trivial = history with >=2 live generators interleaved with >=1 random read; distinct = (file signature, op-kind sequence)')
 ASSUMPTIONS = ['a generator created at step k must deliver the same chunk sequence as one created on a fresh file']
-REQUIRED = ['kept_results_rechecked', 'scribbled_results', 'family:staggered', 'family:very-long', 'chunks_inspected_after_advance', 'family:same-total', 'family:short-middle', 'family:scaled', 'family:long', 'ops', 'gen_next_checked', 'generators_drained', 'file_generators', 'channel_generators', 'family:model', 'family:daqmx']
+REQUIRED = ['stream_reuse_reads', 'histories_with_memmap_dir', 'kept_results_rechecked', 'scribbled_results', 'family:staggered', 'family:very-long', 'chunks_inspected_after_advance', 'family:same-total', 'family:short-middle', 'family:scaled', 'family:long', 'ops', 'gen_next_checked', 'generators_drained', 'file_generators', 'channel_generators', 'family:model', 'family:daqmx']
 N = {'quick': 8000, 'thorough': 400000}
 KINDS = ['index', 'slice', 'read', 'new_gen', 'next_chan', 'next_file', 'read_unscaled']       # 'scribble' is not required in the pair matrix
 
@@ -41,14 +41,19 @@ def gen_cases(tier, seed):
         yield {'fam': 'staggered', 's': seed * 1000003 + i}
     for i in range(max(16, N[tier] // 500)):
         yield {'fam': 'very-long', 's': seed * 1000003 + i}
+    for i in range(N[tier] // 20):
+        yield {'fam': 'stream-reuse', 's': seed * 1000003 + i}
 
 
 def shard_setup(ctx):
     contracts.install()
+    ctx.tmp = util.TempDir('c05')
+    ctx.tmpdir = ctx.tmp.__enter__()
 
 
 def shard_teardown(ctx):
     contracts.drain(ctx)
+    ctx.tmp.__exit__()
 
 
 def build(case):
@@ -258,8 +263,56 @@ def chunk_images(chunk, chans):
     return out
 
 
+def stream_reuse_case(case, ctx):
+    """One stream object rewritten with another file of the same layout and opened again: what is read depends on the
+    bytes in the stream now, not on what the same stream object held before."""
+    from nptdms import TdmsFile
+    rng = random.Random('c05sr/%d' % case['s'])
+    nch = rng.randint(1, 3)
+    inter = rng.random() < 0.6
+    n = rng.choice([2, 3, 5])
+    chans = [('g', 'c%d' % i, rng.choice(['i32', 'f64', 'i16', 'u8']), n if inter else rng.choice([2, 3, 5]), []) for i in range(nch)]
+    nseg, nchk, e = rng.randint(1, 3), rng.randint(1, 3), rng.choice('<>')
+    files = []
+    for k in range(2):
+        vr = random.Random('c05srv/%d/%d' % (case['s'], k))
+        segs = M.build_file(random.Random('c05srs/%d' % case['s']), chans, nseg=nseg, nchunks=(nchk,), endian=e, inter=inter,
+                            values_fn=lambda p, t, kk, vr=vr: np.array([vr.randrange(0, 120) for _ in range(kk)]).astype(M.TYPES[t][1]))
+        files.append((M.encode_file(segs)[0], M.Expected(segs)))
+    ctx.evaluation()
+    ctx.count('family:stream-reuse')
+    ctx.distinct(('stream-reuse', nch, inter, nseg, nchk, e, n))
+    if len(files[0][0]) != len(files[1][0]):
+        return
+    stream = io.BytesIO(files[0][0])
+    for k, (blob, exp) in enumerate(files):
+        if k:
+            stream.seek(0)
+            stream.truncate()
+            stream.write(blob)
+            stream.seek(0)
+        for mode in ('lazy', 'eager'):
+            stream.seek(0)
+            tf = (TdmsFile.open if mode == 'lazy' else TdmsFile.read)(stream)
+            try:
+                for p in exp.channels():
+                    g_, c_ = M.split_path(p)
+                    ch = tf[g_][c_]
+                    want = C.expected_image(exp.types[p], exp.flat(p))
+                    for what, got in (('[:]', ch[:]), ('index', np.array([ch[i] for i in range(len(ch))]) if mode == 'lazy' else ch[:]),
+                                      ('chunks', np.concatenate([x[:] for x in ch.data_chunks()]) if mode == 'lazy' and len(ch) else ch[:])):
+                        ctx.count('stream_reuse_reads')
+                        if not C.img_equal(C.image(got), want, loose_kind=True):
+                            ctx.violation('stream-reuse/%s/%s/%s' % ('first-use' if k == 0 else 'after-rewrite', mode, what),
+                                          {'path': p, 'got': C.short(C.image(got)), 'want': C.short(want), 'interleaved': inter})
+            finally:
+                tf.close()
+
+
 def run_case(case, ctx):
     from nptdms import TdmsFile
+    if case['fam'] == 'stream-reuse':
+        return stream_reuse_case(case, ctx)
     blob, sig, desc, rng = build(case)
     ctx.evaluation()
     ctx.count('family:' + case['fam'])
@@ -290,7 +343,10 @@ def run_case(case, ctx):
         return
     # ---- the history
     stream = TraceIO(blob)
-    tf = TdmsFile.open(stream)
+    use_memmap = case['s'] % 4 == 3 and case['fam'] in ('model', 'scaled', 'same-total', 'staggered')
+    if use_memmap:
+        ctx.count('histories_with_memmap_dir')       # results are memory maps: an earlier one must not be recycled for a later read
+    tf = TdmsFile.open(stream, memmap_dir=ctx.tmpdir) if use_memmap else TdmsFile.open(stream)
     gens = []         # dicts: kind chan/file, key, it, delivered
     history = []
     nops = rng.randint(20, 60)
